@@ -116,8 +116,9 @@ def handle (op : String) (j : Json) : Option (Except String Json) :=
       let head ← gtreeOf (← j.getObjVal? "head")
       let k ← getNatField j "k"
       let changed ← strList (← j.getObjVal? "changed")
+      let rebase ← getBoolField j "rebase"
       pure (jObj [("per_commit", jTriples (perCommitLines k tk)),
-                  ("slow", jTriples (slowLines head tk changed))])
+                  ("slow", jTriples (slowLinesFor rebase head tk changed))])
   | _ => none
 
 end GitAi.Driver.RemapD
